@@ -1000,7 +1000,12 @@ class Sense(_Relatable):
             Word('pwn-spigot-n')
 
         """
-        return self._wordnet.word(id=self._entry_id)
+        lexids = self._get_lexicon_ids()
+        iterable = find_entries(id=self._entry_id, lexicon_rowids=lexids)
+        try:
+            return Word(*next(iterable), self._wordnet)
+        except StopIteration:
+            raise wn.Error(f'no such lexical entry: {self._entry_id}') from None
 
     def synset(self) -> Synset:
         """Return the synset of the sense.
@@ -1011,7 +1016,12 @@ class Sense(_Relatable):
             Synset('pwn-03325088-n')
 
         """
-        return self._wordnet.synset(id=self._synset_id)
+        lexids = self._get_lexicon_ids()
+        iterable = find_synsets(id=self._synset_id, lexicon_rowids=lexids)
+        try:
+            return Synset(*next(iterable), _wordnet=self._wordnet)
+        except StopIteration:
+            raise wn.Error(f'no such synset: {self._synset_id}') from None
 
     def examples(self) -> list[str]:
         """Return the list of examples for the sense."""
